@@ -81,8 +81,20 @@ def parse_fmt(fmt):
     else:
         raise Unsupported("symbolic struct format")
     first = parts[0] if isinstance(parts[0], str) else ""
-    if not first or first[0] not in ">!":
-        raise Unsupported(f"struct format without explicit big-endian byte order: {fmt!r}")
+    if not first:
+        raise Unsupported(f"struct format {fmt!r}")
+    global _LAST_LITTLE
+    if first[0] in ">!":
+        _LAST_LITTLE = False
+    elif first[0] == "<":
+        _LAST_LITTLE = True
+    else:
+        # native order/size/alignment: supported for a single item only (no padding can occur); host assumed little-endian
+        body = first[1:] if first[0] in "@=" else first
+        if sum(1 for ch in body if not ch.isdigit()) != 1 or len(parts) != 1:
+            raise Unsupported(f"native struct format with several items: {fmt!r}")
+        _LAST_LITTLE = True
+        parts = ["<" + body]
     items = []
     pending = None
     idx0 = True
@@ -126,6 +138,31 @@ def parse_fmt(fmt):
     return items
 
 
+_LAST_LITTLE = False
+
+
+def fmt_is_little(fmt):
+    parse_fmt(fmt)
+    return _LAST_LITTLE
+
+
+def int_of_bytes(d, pos, nb, little):
+    acc = z3.IntVal(0)
+    rng = range(nb - 1, -1, -1) if little else range(nb)
+    digits = []
+    for k in rng:
+        el = zu.smart_nth(d, pos + k)
+        digits.append(el)
+        acc = acc * 256 + el
+    known = _PATH[0].__dict__.get("byte_sums", {}).get(tuple(x.get_id() for x in digits)) if _PATH[0] is not None else None
+    if known is not None:
+        return known      # these are exactly the base-256 digits introduced for `known` (pc contains sum == known)
+    return acc
+
+
+_PATH = [None]
+
+
 def item_size(code, cnt):
     if code in ("s", "x"):
         return cnt
@@ -160,6 +197,10 @@ def struct_unpack_from(ip, args, kwargs, exact=False):
         except _struct.error as e:
             ip.raise_exc("struct.error", str(e))
     items = parse_fmt(fmt)
+    little = _LAST_LITTLE
+    _PATH[0] = ip.path
+    if little:
+        ip.path.assumptions.add("A2: native struct/array formats: host is little-endian with standard sizes")
     size = fmt_size(ip, items)
     d = ip.to_z3(data)
     n = z3.Length(d)
@@ -185,9 +226,9 @@ def struct_unpack_from(ip, args, kwargs, exact=False):
         elif code in _INT_CODES:
             nb, signed = _INT_CODES[code]
             for k in range(nb):
-                el = d[pos + k]
+                el = zu.smart_nth(d, pos + k)
                 ip.path.assume(z3.And(el >= 0, el <= 255))
-            u = zu.be_int(d, pos, nb)
+            u = int_of_bytes(d, pos, nb, little)
             if signed:
                 u = z3.If(u >= (1 << (8 * nb - 1)), u - (1 << (8 * nb)), u)
             out.append(ip.wrap(u, "int"))
@@ -196,11 +237,11 @@ def struct_unpack_from(ip, args, kwargs, exact=False):
             ip.path.assume(z3.And(el >= 0, el <= 255))
             out.append(ip.wrap(el != 0, "bool"))
         elif code in ("c", "s"):
-            out.append(ip.wrap(z3.SubSeq(d, pos, ip.to_z3(isz, "int")), "bytes"))
+            out.append(ip.wrap(zu.smart_subseq(d, z3.simplify(pos), ip.to_z3(isz, "int")), "bytes"))
         elif code in ("f", "d"):
             ip.path.assumptions.add("A2: struct float formats are an uninterpreted bijection")
             f = ufun("float_of_" + code, zu.BytesS, zu.RealS)
-            out.append(Sym(f(z3.SubSeq(d, pos, z3.IntVal(isz))), "real"))
+            out.append(Sym(f(zu.smart_subseq(d, z3.simplify(pos), z3.IntVal(isz))), "real"))
         pos = z3.simplify(pos + ip.to_z3(isz, "int"))
     return tuple(out)
 
@@ -214,6 +255,9 @@ def struct_pack(ip, args, kwargs):
         except _struct.error as e:
             ip.raise_exc("struct.error", str(e))
     items = [it for it in parse_fmt(fmt)]
+    little = _LAST_LITTLE
+    if little:
+        ip.path.assumptions.add("A2: native struct/array formats: host is little-endian with standard sizes")
     n_vals = sum(1 for c, _ in items if c != "x")
     if n_vals != len(vals):
         ip.raise_exc("struct.error", f"pack expected {n_vals} items for packing (got {len(vals)})")
@@ -235,16 +279,11 @@ def struct_pack(ip, args, kwargs):
             if ip.path.branch(z3.Or(t < lo, t > hi)):
                 ip.raise_exc("struct.error", "argument out of range")
             if isinstance(v, (int, bool)):
-                parts.append(zu.bytes_lit(_struct.pack(">" + code, int(v))))
+                parts.append(zu.bytes_lit(_struct.pack(("<" if little else ">") + code, int(v))))
                 continue
             u = z3.If(t < 0, t + (1 << (8 * nb)), t) if signed else t
-            bs = [z3.Int(ip.path.fresh_name("pb")) for _ in range(nb)]
-            acc = z3.IntVal(0)
-            for b in bs:
-                ip.path.assume(z3.And(b >= 0, b <= 255))
-                acc = acc * 256 + b
-            ip.path.assume(acc == u)
-            for b in bs:
+            bs = byte_decomp(ip, u, nb)
+            for b in (reversed(bs) if little else bs):
                 parts.append(z3.Unit(b))
         elif code == "?":
             t = ip.truth_term(v)
@@ -291,6 +330,24 @@ def struct_pack(ip, args, kwargs):
         return b""
     t = parts[0] if len(parts) == 1 else z3.Concat(*parts)
     return ip.wrap(t, "bytes")
+
+
+def byte_decomp(ip, u, nb):
+    """Base-256 digits (most significant first) of the z3 Int u, 0 <= u < 256**nb; memoised per path and term."""
+    u = z3.simplify(u)
+    cache = ip.path.__dict__.setdefault("byte_decomps", {})
+    key = (u.get_id(), nb)
+    if key in cache:
+        return cache[key][1]
+    bs = [z3.Int(ip.path.fresh_name("pb")) for _ in range(nb)]
+    acc = z3.IntVal(0)
+    for b in bs:
+        ip.path.assume(z3.And(b >= 0, b <= 255))
+        acc = acc * 256 + b
+    ip.path.assume(acc == u)
+    cache[key] = (u, bs)
+    ip.path.__dict__.setdefault("byte_sums", {})[tuple(b.get_id() for b in bs)] = u
+    return bs
 
 
 class StructVal:
@@ -440,7 +497,9 @@ def install(ip):
                 if ip.type_of(x) not in ("int", "bool"):
                     ip.raise_exc("TypeError")
                 t = ip.to_z3(x, "int")
-                if ip.path.branch(z3.Or(t < 0, t > 255)):
+                if ip.spec_total and not ip.in_real_code():
+                    pass
+                elif ip.path.branch(z3.Or(t < 0, t > 255)):
                     ip.raise_exc("ValueError", "bytes must be in range(0, 256)")
                 ts.append(z3.Unit(t))
             if not ts:
@@ -892,7 +951,37 @@ def install(ip):
     mod("dataclasses", dataclass=Opaque("dataclasses.dataclass"), field=Opaque("dataclasses.field"),
         fields=Opaque("dataclasses.fields"), is_dataclass=Opaque("dataclasses.is_dataclass"))
     mod("types", ModuleType=BuiltinClass("ModuleType"))
-    mod("array", array=Opaque("array.array"))
+    def array_ctor(ip, a, k):
+        code = a[0]
+        if not isinstance(code, str) or code not in ArrayVal.SIZES:
+            raise Unsupported("array typecode")
+        elty = "real" if code in "fd" else "int"
+        if len(a) > 1:
+            src = a[1]
+            if isinstance(src, PList):
+                lst = PList(None if src.symbolic else list(src.items), src.term, src.elty or elty)
+            elif isinstance(src, Sym) and isinstance(src.ty, tuple) and src.ty[0] == "seq":
+                lst = PList(term=src.t, elty=src.ty[1])
+            else:
+                lst = PList(ip.iterate(src), elty=elty)
+            if not lst.symbolic:
+                lo, hi = {"B": (0, 255), "q": (-2 ** 63, 2 ** 63 - 1), "Q": (0, 2 ** 64 - 1), "b": (-128, 127),
+                          "H": (0, 65535), "I": (0, 2 ** 32 - 1), "i": (-2 ** 31, 2 ** 31 - 1), "h": (-32768, 32767),
+                          "l": (-2 ** 63, 2 ** 63 - 1), "L": (0, 2 ** 64 - 1)}.get(code, (None, None))
+                for x in lst.items:
+                    ty = ip.type_of(x) if isinstance(x, (Sym, int, float, bool)) else None
+                    if ty not in ("int", "bool", "real"):
+                        ip.raise_exc("TypeError", "array item")
+                    if lo is not None:
+                        if ty == "real":
+                            ip.raise_exc("TypeError", "integer argument expected, got float")
+                        t = ip.to_z3(x, "int")
+                        if ip.path.branch(z3.Or(t < lo, t > hi)):
+                            ip.raise_exc("OverflowError")
+            lst.elty = elty
+            return ArrayVal(code, lst)
+        return ArrayVal(code, PList([], elty=elty))
+    mod("array", array=BuiltinClass("array", (), array_ctor))
     mod("json", loads=Opaque("json.loads"), dumps=Opaque("json.dumps"), JSONDecodeError=ip.exc_classes["JSONDecodeError"])
     mod("base64", b64encode=Opaque("base64.b64encode"), b64decode=Opaque("base64.b64decode"))
     mod("threading", RLock=Builtin("RLock", lambda ip, a, k: _NullCtx()), Lock=Builtin("Lock", lambda ip, a, k: _NullCtx()))
@@ -1076,6 +1165,59 @@ def install(ip):
 
     from . import prims_methods
     prims_methods.install(ip)
+
+
+class ArrayVal:
+    """array.array model (A2): contents as a PList; (de)serialisation as an uninterpreted bijection per typecode."""
+
+    SIZES = {"b": 1, "B": 1, "h": 2, "H": 2, "i": 4, "I": 4, "l": 8, "L": 8, "q": 8, "Q": 8, "f": 4, "d": 8}
+
+    def __init__(self, code, lst):
+        self.code = code
+        self.lst = lst
+
+    @property
+    def elty(self):
+        return "real" if self.code in "fd" else "int"
+
+
+def array_attr(ip, a, name):
+    code = a.code
+    esort = zu.sort_of(a.elty)
+    tob = ufun("array_tobytes_" + code, z3.SeqSort(esort), zu.BytesS)
+    fromb = ufun("array_frombytes_" + code, zu.BytesS, z3.SeqSort(esort))
+    isz = ArrayVal.SIZES[code]
+    if name == "itemsize":
+        return isz
+    if name == "typecode":
+        return code
+    if name == "tobytes":
+        def tobytes(ip_, args, k):
+            ip.path.assumptions.add("A2: array.tobytes/frombytes are an uninterpreted bijection per typecode (host byte order)")
+            t = ip.list_term(a.lst, a.elty)
+            r = tob(t)
+            ip.path.assume(z3.Length(r) == isz * z3.Length(t))
+            ip.path.assume(fromb(r) == t)
+            return ip.wrap(r, "bytes")
+        return Builtin("array.tobytes", tobytes)
+    if name == "frombytes":
+        def frombytes(ip_, args, k):
+            ip.path.assumptions.add("A2: array.tobytes/frombytes are an uninterpreted bijection per typecode (host byte order)")
+            b = ip.to_z3(args[0])
+            if ip.path.branch(z3.Length(b) % isz != 0):
+                ip.raise_exc("ValueError", "bytes length not a multiple of item size")
+            r = fromb(b)
+            ip.path.assume(z3.Length(r) * isz == z3.Length(b))
+            ip.path.assume(tob(r) == b)
+            cur = ip.list_term(a.lst, a.elty)
+            a.lst = PList(term=z3.Concat(cur, r) if not (a.lst.items == []) else r, elty=a.elty)
+            return None
+        return Builtin("array.frombytes", frombytes)
+    if name == "tolist":
+        return Builtin("array.tolist", lambda ip_, args, k: PList(None if a.lst.symbolic else list(a.lst.items), a.lst.term, a.lst.elty))
+    if name == "append":
+        return Builtin("array.append", lambda ip_, args, k: ip.methods[("list", "append")](ip, a.lst, args, k))
+    raise Unsupported("array attribute " + name)
 
 
 class HashObj:
